@@ -36,19 +36,26 @@ THEOREMS = [
     "C12.lex_roundtrip",
     "C12.sqlite_bareSafe",
     "C12.reads_back_vt",
+    "C12.reads_back",
     "C12.same_effect_partial",
+    "C12.same_effect_linear_upgrade",
+    "C12.same_effect_linear_downgrade",
+    "C12.same_effect_linear_range",
+    "C12.same_effect_linear_range_downgrade",
     "C12.same_effect_counterexample",
     "C12.same_effect_statement_false",
 ]
 PARTIAL = {
     "C12.same_effect_partial": (
         "hypotheses beyond the property text: (1) no TAB in any rendered statement - genuinely needed, see C12.same_effect_counterexample / "
-        "finding C12-TAB; (2) readsBack: each rendered body statement is parsed back to itself by the model's reader - proved for all inputs "
-        "only for the version-table statements (C12.reads_back_vt) and, at token level, for every statement (C12.lex_roundtrip); for "
-        "CREATE TABLE / INSERT / CREATE INDEX / ADD COLUMN / DROP the statement-level round trip is a decidable hypothesis evaluated by the "
-        "driver on every generated input (field wf), the general proof is missing; (3) op.execute texts are plain single statements; "
-        "(4) the head set is empty only before the first / after the last step (midOk). Version bookkeeping per step is a parameter "
-        "(any list of insert/update/delete), linear and branched plans alike; the online-only rowcount check is not modelled."
+        "finding C12-TAB; (2) op.execute texts are plain single statements (plainText) that are not version-table statements; (3) statements are "
+        "statements of the language (stmtWf: non-empty column/value lists, user tables not named alembic_version, version numbers without a quote); "
+        "(4) the head set is empty only before the first / after the last step (midOk) - discharged for linear histories by "
+        "C12.same_effect_linear_upgrade/_downgrade/_range, where plan and version statements are derived; for branched/merged histories the "
+        "version operations per step are a parameter (any list of insert/update/delete; which ones alembic picks is property C03's row algebra) "
+        "and the harness feeds the real ones. That every rendered statement is read back as itself is now a theorem (C12.reads_back), no longer a "
+        "hypothesis. Not modelled: the online-only rowcount check; literal rendering of floats/Decimal/dates/booleans (implementation-side oracle only); "
+        "DROP COLUMN is outside the Lean language (harness only)."
     ),
 }
 TRUSTED = [
@@ -167,6 +174,21 @@ def real_cells(d):
     return {n: ([c[0] for c in t["cols"]], t["rows"]) for n, t in d["tables"].items()}, d["version"]
 
 
+def linear_query(case, res):
+    """for a linear history with at most one start head: (driver op, expected steps) of the real plan"""
+    if case["shape"] != "linear" or len(case["start"]) > 1 or not res.get("steps_offline"):
+        return None
+    steps = res["steps_offline"]
+    revs = [st["rev"] for st in steps]
+    if any(r is None for r in revs):
+        return None
+    down = {r["id"]: (r["down"][0] if r["down"] else None) for r in case["hist"]}
+    up = case["cmd"] == "upgrade"
+    other = (case["start"][0] if case["start"] else None) if up else down[revs[-1]]
+    op = {"op": "off.linear", "up": up, "revs": [cps(r) for r in revs], "other": None if other is None else cps(other)}
+    return op, [{"log": st["log"], "ver": [list(v) for v in st["ver"]]} for st in steps]
+
+
 def hetero_ops(case):
     out = []
     for rid, b in case["bodies"].items():
@@ -278,6 +300,8 @@ def flush(ctx, pending):
         case = inp["case"]
         ops.append({"op": "off.same", "a": dump_json(res["A"]), "b": dump_json(res["B"])})
         ops.append({"op": "off.split", "text": cps(res["script"])})
+        lin = linear_query(case, res)
+        ops.append(lin[0] if lin else {"op": "off.skip"})
         inlang = all(G.in_language(b["up"]) and G.in_language(b["down"]) for b in case["bodies"].values())
         if inlang:
             base = {"start": [cps(x) for x in case["start"]], "steps": steps_json(case, res["steps_offline"])}
@@ -288,8 +312,17 @@ def flush(ctx, pending):
             ops.append({"op": "off.skip"})
     ans = ctx.drv.ask(ops)
     for k, (inp, res) in enumerate(pending):
-        same, sp, em, rn = ans[4 * k : 4 * k + 4]
+        same, sp, ln, em, rn = ans[5 * k : 5 * k + 5]
         case = inp["case"]
+        lin = linear_query(case, res)
+        if lin:
+            # the model's linear plan (Model.Offline.upSteps/downSteps: log lines and version operations) is the real one
+            ctx.hist("linear_plan", "compared")
+            got = [{"log": uncps(st["log"]), "ver": [[v[0]] + [uncps(x) for x in v[1:]] for v in st["ver"]]} for st in ln.get("steps", [])]
+            if got != lin[1]:
+                ctx.disagree("off.linear", summarise(case, inp["mode"]) | {"hist": case["hist"]}, lin[1], got)
+            else:
+                ctx.trace_ok()
         if "script" in em:
             # (a) the model's offline text is the real output buffer, character by character
             mtxt = None if em["script"] is None else uncps(em["script"])
